@@ -128,6 +128,7 @@ def _convert_old_agg(agg: AST, unqiue_vars: UniqueVariables) -> AST:
     bm = {True: 0, False: 1}
     new_elements: list[AST] = []
     comparison_counter = 2
+    boolean_tuples: set[str] = set()
 
     def replace_with_new(var: AST) -> AST:
         if var.name == "_":
@@ -147,6 +148,9 @@ def _convert_old_agg(agg: AST, unqiue_vars: UniqueVariables) -> AST:
             terms.extend(sorted(collect_ast(atom, "Variable")))
         elif atom.ast_type == ASTType.BooleanConstant:
             terms.append(SymbolicTerm(LOC, Number(bm[atom.value])))
+            if str(terms) in boolean_tuples:  # every such element counts on its own
+                terms.append(SymbolicTerm(LOC, Number(comparison_counter)))
+            boolean_tuples.add(str(terms))
             comparison_counter += 1
         elif atom.ast_type == ASTType.SymbolicAtom:
             if new_literal.sign == Sign.NoSign:  # only a positive literal binds the new variable
